@@ -315,31 +315,45 @@ Fixpoint bump_idx (fuel : nat) (used : list pyval) (e : pystr) (idx : Z) : res Z
 Definition used_names (mol : graph) (named nodes : list Z) : res (list pyval) :=
   map_res (fun n => a <- node_attrs mol n ;; of_option (aget (S "atomname") a) EKey)
           (filter (fun n => zin_l n named) nodes).
-Definition nstate := (graph * fgraphs * list Z)%type.
+(** state of the naming loop: fine graph, coarse 'graph' attributes, [named] atoms, [shared_names] (/repo e15e5bd: the
+    names given to atoms that belong to several fragments, kept apart from each other over the whole molecule) *)
+Definition nstate := (graph * fgraphs * list Z * list pyval)%type.
+(** len(molecule.nodes[node].get('fragid', [])) > 1 *)
+Definition fragid_shared (a : attrs) : res bool :=
+  match aget (S "fragid") a with
+  | None => Ok false
+  | Some (VList l) | Some (VTup l) => Ok (Nat.ltb 1 (length l))
+  | Some (VStr s) => Ok (Nat.ltb 1 (length s))
+  | Some (VDict d) => Ok (Nat.ltb 1 (length d))
+  | Some _ => Err EType
+  end.
 Definition name_node (mn : Z) (used : list pyval) (st : nstate * Z) (node : Z) : res (nstate * Z) :=
-  let '(mol, fgs, named, idx) := st in
-  '(mol1, named1, idx1) <-
-     (if zin_l node named then Ok (mol, named, idx) else
+  let '(mol, fgs, named, shn, idx) := st in
+  '(mol1, named1, shn1, idx1) <-
+     (if zin_l node named then Ok (mol, named, shn, idx) else
         a <- node_attrs mol node ;;
+        sh <- fragid_shared a ;;
         el <- of_option (aget (S "element") a) EKey ;;
         e <- as_str el ;;
-        i <- bump_idx (Datatypes.S (length used)) used e idx ;;
-        Ok (set_node_attr mol node (S "atomname") (VStr (atom_label e i)), node :: named, i)) ;;
+        let taken := if sh then used ++ shn else used in
+        i <- bump_idx (Datatypes.S (length taken)) taken e idx ;;
+        let nm := VStr (atom_label e i) in
+        Ok (set_node_attr mol node (S "atomname") nm, node :: named, (if sh then nm :: shn else shn), i)) ;;
   a1 <- node_attrs mol1 node ;;
   nm <- of_option (aget (S "atomname") a1) EKey ;;
   let fgs1 := match fg_get mn fgs with
               | Some g => fg_set mn (set_node_attr g node (S "atomname") nm) fgs
               | None => fgs
               end in
-  Ok (mol1, fgs1, named1, idx1 + 1).
+  Ok (mol1, fgs1, named1, shn1, idx1 + 1).
 Definition name_group2 (st : nstate) (grp : Z * list Z) : res nstate :=
-  let '(mol, fgs, named) := st in
+  let '(mol, fgs, named, shn) := st in
   used <- used_names mol named (snd grp) ;;
   r <- fold_res (name_node (fst grp) used) (snd grp) (st, 0) ;;
   Ok (fst r).
 Definition set_atom_names (mol meta : graph) (fgs : fgraphs) : res (graph * fgraphs) :=
-  r <- fold_res name_group2 (fraglist_of meta fgs) (mol, fgs, []) ;;
-  Ok (fst (fst r), snd (fst r)).
+  r <- fold_res name_group2 (fraglist_of meta fgs) (mol, fgs, [], []) ;;
+  Ok (fst (fst (fst r)), snd (fst (fst r))).
 
 (** set_atom_names_atomistic(molecule) without a coarse graph: groups by the single fragid, in
     first-seen order; only the molecule is renamed *)
